@@ -415,7 +415,7 @@ def produce_lines(group, tier, seed, release=False, timeout=3000):
     return out_path, ""
 
 
-def produce_lines_miri(group, seed, timeout=3000):
+def produce_lines_miri(group, seed, timeout=3000, mode="miri"):
     """run the harness group's reduced case list under Miri (thorough tier, supporting evidence
     for the runtime half of C01): returns (lines path | None, error)."""
     os.makedirs(BUILD, exist_ok=True)
@@ -426,7 +426,7 @@ def produce_lines_miri(group, seed, timeout=3000):
         link_repo()
         with open(out_path, "w") as f:
             try:
-                p = subprocess.run(["cargo", "+nightly", "miri", "run", "--offline", "-q", "--", group, "miri", str(seed)],
+                p = subprocess.run(["cargo", "+nightly", "miri", "run", "--offline", "-q", "--", group, mode, str(seed)],
                                    cwd=harness_crate(), stdout=f, stderr=subprocess.PIPE, env=env, timeout=timeout)
             except subprocess.TimeoutExpired:
                 return None, "miri run timed out"
